@@ -1702,6 +1702,13 @@ func (db *DB) Dump(w io.Writer, tableNames ...string) error {
 	defer conn.Close()
 	ctx := context.Background()
 
+	// Read everything inside one read transaction, so that the schema and every
+	// table are seen as of a single point in time even if writes are in flight.
+	if _, err := conn.ExecContext(ctx, "BEGIN"); err != nil {
+		return err
+	}
+	defer conn.ExecContext(ctx, "ROLLBACK")
+
 	// Convenience function to convert string query to protobuf.
 	commReq := func(query string) *command.Request {
 		return &command.Request{
@@ -1761,6 +1768,9 @@ func (db *DB) Dump(w io.Writer, tableNames ...string) error {
 
 		if err != nil {
 			return err
+		}
+		if r[0].Error != "" {
+			return errors.New(r[0].Error)
 		}
 		for _, x := range r[0].Values {
 			y := fmt.Sprintf("%s;\n", x.Parameters[0].GetS())
